@@ -119,6 +119,24 @@ def _reest(data):
     return float(np.mean(c)), float(np.std(c))
 
 
+def _grid_ok(fr):
+    """C05 on a frame as constructed: frequency axis strictly increasing in memory, uniformly spaced by df from fmin to
+    fmax with fch1 at the end its orientation says; time axis i * dt.  Tolerance: 1e-6 channel + 4 ulp of the absolute
+    frequency; 1e-9 * dt per row."""
+    try:
+        fs, ts = np.asarray(fr.fs, dtype=float), np.asarray(fr.ts, dtype=float)
+        if len(fs) != fr.fchans or len(ts) != fr.tchans or fr.df <= 0 or fr.dt <= 0:
+            return False
+        tolf = 1e-6 * fr.df + 4 * np.spacing(max(abs(fs[0]), abs(fs[-1]), 1.0))
+        want = fs[0] + fr.df * np.arange(fr.fchans)
+        ok = bool(np.all(np.abs(fs - want) <= tolf)) and (len(fs) < 2 or bool(np.all(np.diff(fs) > 0)))
+        ok = ok and abs(fr.fch1 - (fs[0] if fr.ascending else fs[-1])) <= tolf
+        ok = ok and bool(np.all(np.abs(ts - fr.dt * np.arange(fr.tchans)) <= 1e-9 * fr.dt * max(1, fr.tchans)))
+        return bool(ok)
+    except Exception:
+        return False
+
+
 def _delta_ok(before, after, ret):
     if not isinstance(ret, np.ndarray) or ret.shape != before.shape or after.shape != before.shape:
         return False
@@ -200,6 +218,7 @@ def recording(rec):
             if load is not None:
                 ev.update(load)
             rec.events.append(ev)
+            ev["grid_ok"] = _grid_ok(self)
             ev.update({"data_zero": bool(not np.any(self.data)), "k_ok": bool(k_ok),
                                "axes_ok": bool(len(self.fs) == self.fchans and len(self.ts) == self.tchans and tuple(self.data.shape) == (self.tchans, self.fchans))})
         return __init__
@@ -467,7 +486,7 @@ def recording(rec):
             gen, fmt, ax, data, est, meta = rec.snap.get(k, (0, "?", None, None, None, None))
             ev = {"e": "Create", "fid": rec.fid(ret), "how": "pickle", "after": rec.est(ret), "dig1": _dig(ret.data), "path": k, "gen": gen, "rate": rec.rate(ret),
                   "sig": _sig(ret, fmt if fmt == "pickle" else "?"), "axes_close": True, "tstart_close": True, "helpers_ok": True,
-                  "exact_ok": True, "data_zero": bool(not np.any(ret.data)), "k_ok": True, "axes_ok": True}
+                  "exact_ok": True, "data_zero": bool(not np.any(ret.data)), "k_ok": True, "axes_ok": True, "grid_ok": True}
             if fmt == "pickle":
                 ev["exact_ok"] = bool(rec.axes_same(ax, rec.axes(ret)) and np.array_equal(data, ret.data) and data.dtype == ret.data.dtype
                                       and est == rec.est(ret) and (meta is None or meta == ret.metadata))
